@@ -150,11 +150,16 @@ def run_operate(chk: Check, prog: Program) -> None:
 
 def run_plumbing(chk: Check, prog: Program) -> None:
     chk.rule("C05.R2", "evaluate passes eval(left), eval(right) (resp. eval(get_child())) to operate and forwards the context",
-             minimum=3)
-    for base, kind in (("BinaryExpression", "AddExpression"), ("UnaryExpression", "NegateExpression")):
+             minimum=10)
+    # every operator class: the method its MRO resolves `evaluate` to (an override in one class is judged like the
+    # shared one; SgnExpression reaches Unary's through FunctionExpression)
+    for kind in list(EXPECT_BIN) + list(EXPECT_UN):
+        base = "BinaryExpression" if kind in EXPECT_BIN else "UnaryExpression"
+        if prog.cls(kind) is None:
+            raise AnalysisError(f"operator class {kind} vanished")
         m = prog.find_method(kind, "evaluate")
         if m is None:
-            raise AnalysisError(f"{base}.evaluate vanished")
+            raise AnalysisError(f"{kind}.evaluate vanished")
 
         def body(it: Interp, kind=kind, m=m):
             node = it.new_summary(frozenset([kind]), "arg")
@@ -174,17 +179,17 @@ def run_plumbing(chk: Check, prog: Program) -> None:
             def h_operate(it2, info, args, kwargs):
                 it2.log.append(("operate", [A.term_str(it2.to_term(a)) if it2.to_term(a) is not None else repr(a) for a in args[1:]]))
                 return Num(("sym", "result"))
-            for q in ("MathExpression.evaluate", "BinaryExpression.evaluate", "UnaryExpression.evaluate",
-                      "ConstantExpression.evaluate", "VariableExpression.evaluate"):
-                it.hooks[q] = h_eval
+            for cname, cinfo in prog.classes.items():
+                if "evaluate" in cinfo.methods:
+                    it.hooks[f"{cname}.evaluate"] = h_eval
             for k in list(EXPECT_BIN) + list(EXPECT_UN):
                 it.hooks[f"{k}.operate"] = h_operate
             return it.call_function(m, [node, ctx], {})
 
         for p in explore(prog, body, {"max_updepth": 0}):
             it = p.interp
-            label = f"{m.qualname}: {p.cond or 'single path'}"
-            key = f"C05.R2:{m.qualname}"
+            label = f"{kind} -> {m.qualname}: {p.cond or 'single path'}"
+            key = f"C05.R2:{kind}:{m.qualname}"
             probs = []
             if p.outcome != "return":
                 probs.append(f"{p.outcome} {p.exc or p.note}")
